@@ -113,8 +113,13 @@ def connect_pair(service_a, service_b, config_a=None, config_b=None, compress=Tr
                 if conn._recvlock.locked():
                     # conn is itself blocked in poll() further up this (single) thread's stack: in a real deployment its
                     # own serve loop would pick the message up; emulate that without re-taking the receive lock
+                    # (its receive lock is released around the dispatch, as its own serve() would have released it before dispatching)
                     data = conn._channel.recv()
-                    conn._dispatch(data)
+                    conn._recvlock.release()
+                    try:
+                        conn._dispatch(data)
+                    finally:
+                        conn._recvlock.acquire()
                 else:
                     conn.serve(0)
             except EOFError:
